@@ -7,6 +7,11 @@ pub fn fmt_stub(_: std::fmt::Arguments<'_>) -> String {
 pub fn msg_stub<T: ToString>(_m: T) -> candid::Error {
     candid::Error::Binread(Vec::new())
 }
+/// see DESIGN §2.3: forgetting the io::Error avoids its drop glue (Box<dyn Error> arm)
+pub fn from_io_stub(e: std::io::Error) -> candid::Error {
+    std::mem::forget(e);
+    candid::Error::Binread(Vec::new())
+}
 pub fn stack_stub() -> Option<usize> {
     None
 }
@@ -33,6 +38,7 @@ macro_rules! harness {
         #[kani::stub(alloc::fmt::format, crate::stubs::fmt_stub)]
         #[kani::stub(candid::Error::msg, crate::stubs::msg_stub)]
         #[kani::stub(stacker::remaining_stack, crate::stubs::stack_stub)]
+        #[kani::stub(<candid::Error as std::convert::From<std::io::Error>>::from, crate::stubs::from_io_stub)]
         #[kani::stub(<::anyhow::Error as std::ops::Drop>::drop, crate::stubs::drop_stub)]
         #[kani::stub(std::rc::Rc::drop_slow, crate::stubs::rc_drop_stub)]
         #[kani::stub(candid::types::internal::find_type, crate::stubs::find_type_stub)]
